@@ -8,6 +8,7 @@ CONSTANTS
   TokenForFailed = FALSE
   UdsKeepsToken = FALSE
   ServeWhilePending = FALSE
+  StopServesQueued = FALSE
 SPECIFICATION Spec
-INVARIANTS B_TokensArePositions C01_OwnListenersService C07_NoCallWhilePending C07_WaitsThenServed B_NoPanic B_SvcOwner EmitLayout
+INVARIANTS B_TokensArePositions C01_OwnListenersService C07_NoCallWhilePending C07_WaitsThenServed C01_QueuedReleasedAtStop B_NoPanic B_SvcOwner EmitLayout
 CHECK_DEADLOCK FALSE
